@@ -183,7 +183,7 @@ func (s *stream) tryNext(h *history, engine *lungo.Engine, trace *util.NDJSON, h
 }
 
 var namespaces = [][2]string{{"d", "c1"}, {"d", "c2"}, {"e", "c1"}}
-var scopes = [][2]string{{"", ""}, {"d", ""}, {"e", ""}, {"d", "c1"}, {"d", "c2"}, {"e", "c1"}}
+var scopes = [][2]string{{"", ""}, {"d", ""}, {"e", ""}, {"d", "c1"}, {"d", "c2"}, {"e", "c1"}, {"d", "c9"}, {"e", "c9"}} // c9 is never written: such a stream only ever sees its database being dropped
 
 func write(client lungo.IClient, g *gen.G, n int) {
 	ctx := context.Background()
@@ -445,7 +445,16 @@ func concurrent(dir string, seed int64, runs int, trace *util.NDJSON) {
 					}
 				}(w)
 			}
-			wg.Wait()
+			wdone := make(chan struct{})
+			go func() { wg.Wait(); close(wdone) }()
+			select {
+			case <-wdone:
+			case <-time.After(30 * time.Second):
+				// the engine is wedged (writers and consumers block each other): nothing further can be observed in this process
+				finding("stall", "writers did not return within 30 s while consumers were reading: the engine is deadlocked", V{"run": run, "round": round, "stacks": stacks()})
+				out.Encode(V{"kind": "summary", "cases": 0, "findings": findings, "aborted": true})
+				os.Exit(0)
+			}
 			// quiet: every consumer must catch up with everything committed so far
 			sched.Quiet(true)
 			h.observe(engine)
